@@ -27,7 +27,7 @@ NODE_PHASE_B = ("have_event", "accept", "release", "block_individual", "release_
 
 def check(ctx):
     P = ctx.program
-    iters = (0, 1, 2) if ctx.tier == "thorough" else (0, 1)
+    iters = (0, 1)
     node_init(ctx, P, iters)
     simple_protocols(ctx, P, iters)
     loop_locals(ctx, P, iters)
